@@ -292,6 +292,11 @@ func (v *fnVC) tr(e Expr, env *Env) (T, types.Type) {
 			qn = "exists"
 		}
 		rf := v.rangeFact(name, ty)
+		if n, ok := ty.(*types.Named); ok && n.Obj().Pkg() != nil && n.Obj().Pkg().Path() == "reflect" && n.Obj().Name() == "Type" {
+			// reflect.Type values are opaque names in this model (nothing is read through them): a quantifier over
+			// them ranges over all of them, also over the types reflect creates during the call (PtrTo)
+			rf = "true"
+		}
 		if rf != "true" {
 			if x.Forall {
 				body = implies(rf, body)
